@@ -78,10 +78,28 @@ def split3(line):
     return d
 
 
+def _table_covers(inputs):
+    """The model's character classes come from a table regenerated from the implementation for the ASCII range and
+    the code points of gen_consts.EXTRA; any other code point has no class in the model.  An input that uses a code
+    point outside the table would compare the implementation with an unmodelled character: a mistake of the generator
+    (said so, instead of reporting a disagreement that is the check's own)."""
+    known = set(gen_consts.EXTRA)
+    seen = set()
+    for s in inputs:
+        if s.isascii():
+            continue
+        seen.update(ord(c) for c in s if ord(c) > 127)
+    miss = sorted(seen - known)
+    if miss:
+        raise common.Broken("generated inputs use code points outside the character-class table (gen/gen_consts.py "
+                            "EXTRA): %s" % " ".join("U+%04X" % c for c in miss))
+
+
 def run_both(paths, inputs, exts, pcfg=PCFG_DEBUG, release=False):
     """inputs: list of str; exts: list of int. Returns list of (input, ext, impl_line, model_line)."""
     cases = []
     meta = []
+    _table_covers(inputs)
     for s in inputs:
         h = hx(s)
         for e in exts:
@@ -139,6 +157,7 @@ def run_pmon(paths, inputs, ext_conv, env=None):
     bindir = common.build_harness(["pmon"])
     cases = []
     meta = []
+    _table_covers(inputs)
     for s in inputs:
         h = hx(s)
         for e, c in ext_conv:
